@@ -46,6 +46,18 @@ def oracles(ctx, o3):
             if I1.num_irreps == I2.num_irreps:
                 mods.append(("ElementwiseTensorProduct", o3.ElementwiseTensorProduct(I1, I2)))
                 mods.append(("experimental.ElementwiseTensorProductv2", o3.experimental.ElementwiseTensorProductv2(I1, I2)))
+            # the less-travelled constructor options: filters and irrep normalisations (round 4)
+            prods = sorted({ir for _, a in I1 for _, b in I2 for ir in a * b})
+            filt = [prods[0], prods[-1]] if len(prods) > 1 else prods
+            for nz in ("norm", "none", "component"):
+                mods.append((f"FullTensorProduct(filter_ir_out={[str(f) for f in filt]},irrep_normalization={nz})",
+                             o3.FullTensorProduct(I1, I2, filter_ir_out=filt, irrep_normalization=nz)))
+            mods.append(("FullTensorProduct(filter_ir_out as strings)", o3.FullTensorProduct(I1, I2, filter_ir_out=[str(f) for f in filt])))
+            mods.append(("FullyConnectedTensorProduct(norm,path)", o3.FullyConnectedTensorProduct(I1, I2, "2x0e+2x1o+1x1e+1x2e+1x0o", irrep_normalization="norm", path_normalization="path")))
+            if I1.num_irreps == I2.num_irreps:
+                for nz in ("norm", "none"):
+                    mods.append((f"ElementwiseTensorProduct(filter_ir_out,irrep_normalization={nz})",
+                                 o3.ElementwiseTensorProduct(I1, I2, filter_ir_out=prods[:max(1, len(prods) // 2)], irrep_normalization=nz)))
         for name, m in mods:
             I1, I2, IO = m.irreps_in1, m.irreps_in2, m.irreps_out
             x1 = torch.randn(3, I1.dim, generator=g)
